@@ -679,7 +679,8 @@ LEVEL_TEXT = ("Proved in Lean for all trees and all query paths, no bound on dep
               "property's (lookTree_not_layout) - returns exactly the innermost job directory containing the path together "
               "with the project whose workspace holds it (getJob_innermost; the clause 'an existing id-named path is a "
               "directory' is needed: getJob_innermost_needs_iddir); non-existent paths, nothing-above and id-less paths give LookupError and whatever is "
-              "returned is a project at or above the query (lookup_errors); init_project on an existing project performs "
+              "returned is a project at or above the query (lookup_errors); for string-typed configs getProjectS_nearest / nosearchS_exact hold for every tree "
+              "(Signac/DiscoveryS.lean); init_project on an existing project performs "
               "no mutating step besides creating a missing workspace directory and never writes the configuration "
               "(initProject_idempotent, initProject_never_rewrites); init_project elsewhere writes the config once and "
               "creates only the missing directories (initProject_fresh). The compiled model is compared with the real "
